@@ -27,7 +27,7 @@ def programs(R):
     base = shellgen.bfs(R, 2)
     foc = focus(R)
     sim = shellgen.simulate(R, 60 if R.tier == "quick" else 800)
-    prim = shellgen.dedup(base + foc + sim + shellgen.deep(12))
+    prim = shellgen.dedup(base + foc + sim + shellgen.deep(12) + shellgen.focus(R, "wprog", 2, 4))
     hd = focus(R, "hdprog")
     hd = rnd.sample(hd, min(len(hd), 900 if R.tier == "quick" else len(hd)))
     extra = []
